@@ -19,9 +19,15 @@ import c09
 
 ERRORS = {"default": ["ENOSPC", "EIO", "EACCES"], "write": ["ENOSPC", "EINTR", "EIO", "EACCES", "EAGAIN", "EFBIG"],
           "pwrite64": ["ENOSPC", "EINTR"], "mkdir": ["ENOSPC", "EACCES", "EEXIST", "ENOTDIR", "EIO"],
-          "openat": ["ENOSPC", "EACCES", "EMFILE", "EIO", "EINTR"], "read": ["EIO", "EINTR", "EACCES"], "close": ["EIO", "ENOSPC"],
+          "openat": ["ENOSPC", "EACCES", "ENOENT", "EMFILE", "EIO", "EINTR"], "read": ["EIO", "EINTR", "EACCES"], "close": ["EIO", "ENOSPC"],
           "unlink": ["EACCES", "EIO", "EBUSY"], "rmdir": ["EACCES", "EBUSY", "EIO"], "newfstatat": ["EACCES", "EIO"],
-          "getdents64": ["EIO", "EACCES"]}
+          "getdents64": ["EIO", "EACCES"],
+          # calls that a different implementation of the relocation might use
+          "rename": ["ENOENT", "EXDEV", "EACCES", "EIO"], "renameat": ["ENOENT", "EXDEV", "EIO"],
+          "renameat2": ["ENOENT", "EXDEV", "EIO"], "sendfile": ["EIO", "ENOSPC", "EINVAL"],
+          "copy_file_range": ["EIO", "ENOSPC", "EXDEV"], "link": ["ENOENT", "EXDEV", "EIO"], "linkat": ["ENOENT", "EXDEV", "EIO"],
+          "writev": ["ENOSPC", "EIO", "EINTR"], "pwritev": ["ENOSPC", "EIO"], "ftruncate": ["EIO", "EACCES"],
+          "fsync": ["EIO", "ENOSPC"], "fdatasync": ["EIO", "ENOSPC"]}
 
 _CTX = {}
 
